@@ -781,7 +781,7 @@ class C20(Spec):
     def standins(self, root, tier):
         from pyvc import driver
         r = driver.rt_call("pyvc.rt_reg", {"cmd": "search", "root": root}, root, timeout=3000)
-        return [{"name": "draft-selection", "scope": "4 registered ids x {with, without '#'} x 13 probe schemas on which the drafts disagree, through validator_for, validate() (implicit and explicit class) and the CLI; missing/boolean/unknown/fragment-bearing $schema; a later create(version=...) and extend(version=...) registration",
+        return [{"name": "draft-selection", "scope": "4 registered ids x {with, without '#'} x 13 probe schemas on which the drafts disagree, through validator_for, validate() (implicit and explicit class) and the CLI; missing/boolean/unknown/fragment-bearing $schema; a later create(version=...) and extend(version=...) registration, after which both spellings of the re-registered id must select the class the registry holds now",
                  "cases": r["tried"], "failures": r["failures"], "replay_kind": "reg", "label": "bounded (not counted as proof)"}]
 
 
